@@ -195,6 +195,42 @@ def run(ctx):
                             stack.extend(fl.deps[l])
                     if derives and not panics.discharge(s, ctx.db):
                         bad.append(s)
+        # ... and a parse failure of the content is returned as an error, not turned into "nothing there" / a default
+        swallowed = []
+        if held:
+            fl = vf.get_flow(f)
+
+            def from_buf(o):
+                p = vf.op_place(o)
+                if p is None:
+                    return False
+                seen, stack = set(), [p[0]]
+                while stack:
+                    l = stack.pop()
+                    if l in seen:
+                        continue
+                    seen.add(l)
+                    if l in bufs:
+                        return True
+                    stack.extend(fl.deps[l])
+                return False
+
+            for b, t in f.calls():
+                rty = f.locals[t["d"][0]]["ty"] if not t["d"][1] else ""
+                if not rty.startswith("core::result::Result<") or not any(from_buf(a) for a in t["a"]):
+                    continue
+                if (t.get("f") or "") in vf.TRANSPARENT_CALLS or (t.get("f") or "").endswith(("Result::<T, E>::map_err", "Try::branch", "FromResidual::from_residual")):
+                    continue
+                g_ = cfg.call_guard(f, b)
+                okp = bool(g_.fail)
+                if okp:
+                    par = cfg.reach(f, starts=[d_ for (_s, d_) in g_.fail], cut_nodes=cfg.error_return_blocks(f))
+                    okp = not any(r in par for r in cfg.return_blocks(f))
+                if not okp:
+                    swallowed.append((b, t))
+        run.instance(R4, {"fn": pp.short(fid), "file": what, "obligation": "a failure to parse the content is returned as an error", "swallowed": [c.site_of(f, b) for b, _t in swallowed]}, held=held and not swallowed)
+        for b, t in swallowed:
+            run.finding(Finding(R4, fid, "a failure of %s on the %s content is not returned as an error (a truncated file would read as absent or as a default)" % ((t.get("f") or "?").split("::")[-1], what), site=c.site_of(f, b)))
         run.instance(R4, {"fn": pp.short(fid), "file": what, "obligation": "no panic site consumes a value derived from the read buffer", "reads": len(reads), "bad": [x.site() for x in bad]}, held=held and not bad)
         if not reads:
             run.error("C06.R4: %s no longer reads a file with read_to_string/read_to_end (anchor missing)" % fid)
